@@ -242,6 +242,25 @@ func lokiJSON(c *Case, r *rand.Rand) []byte {
 			ms = append(ms, member{kind: "other", node: kv("extra", jO(kv("x", jA(jN("1"), jN("2"), jN("3")))))})
 		}
 		r.Shuffle(len(ms), func(i, j int) { ms[i], ms[j] = ms[j], ms[i] })
+		if c.KeyOrder != "" {
+			// JSON key order is free: the entry arrays in front of (behind) the label members, the rest where the shuffle put it
+			first, second := "ent", "lbl"
+			if c.KeyOrder == "labels-first" {
+				first, second = "lbl", "ent"
+			}
+			var a, b, o []member
+			for _, m := range ms {
+				switch m.kind {
+				case first:
+					a = append(a, m)
+				case second:
+					b = append(b, m)
+				default:
+					o = append(o, m)
+				}
+			}
+			ms = append(append(a, o...), b...)
+		}
 		nodes := make([]JKV, len(ms))
 		for i, m := range ms {
 			nodes[i] = m.node
